@@ -284,6 +284,9 @@ def run(ctx):
         for wt, tk, nelec in (("unrestricted", "uhf", (2, 1)), ("restricted", "rhf", (2, 2))):
             for g in (grid if name == "propagate_phaseless" else grid[:3] + [grid[rng.randrange(len(grid))]]):
                 cfgs.append((name, wt, tk, nelec, dict(n_prop_steps=g[0], n_ene_blocks=g[1], n_sr_blocks=g[2])))
+        # restricted container with an open shell (the down determinant is the leading columns of the same matrix)
+        for g in ([(1, 2, 1), (2, 2, 2)] if name == "propagate_phaseless" else [(1, 2, 1)]):
+            cfgs.append((name, "restricted", "uhf", (2, 1), dict(n_prop_steps=g[0], n_ene_blocks=g[1], n_sr_blocks=g[2])))
     lines, dyn = [], []
     spec_fail = []
     worst = 0.0
@@ -349,7 +352,7 @@ def run(ctx):
                 mism.append({"case": (lines + dlines)[k], "model": " ".join(want or [])[:400], "impl": " ".join(got)[:400]})
     # explicit-refresh replay on the implementation (jitted)
     rep = []
-    for wt, tk, nelec in (("unrestricted", "uhf", (2, 1)), ("restricted", "rhf", (2, 2)), ("unrestricted", "uhf", (2, 2))):
+    for wt, tk, nelec in (("unrestricted", "uhf", (2, 1)), ("restricted", "rhf", (2, 2)), ("unrestricted", "uhf", (2, 2)), ("restricted", "uhf", (2, 1))):
         for g in grid[:3] if ctx.tier == "quick" else grid:
             S = systems.make_system(rng, tk, wt, norb=4, nelec=nelec, nchol=2, n_walkers=4, dt=0.02, seed=rng.randrange(1 << 30))
             params = dict(n_prop_steps=g[0], n_ene_blocks=g[1], n_sr_blocks=g[2])
@@ -364,7 +367,7 @@ def run(ctx):
 
     ctx.cov["evaluations"] = len(cfgs) + len(ddyn) + len(rep)
     ctx.cov["distinct_nontrivial"] = len({json.dumps([c[0], c[1], c[4]]) for c in cfgs if sum(c[4].values()) > 3}) + len(rep)
-    ctx.cov["rule"] = ("every sampler entry point x {uhf trial + unrestricted walkers (2,1), rhf trial + restricted walkers (2,2)} x a grid of "
+    ctx.cov["rule"] = ("every sampler entry point x {uhf trial + unrestricted walkers (2,1), rhf trial + restricted walkers (2,2), uhf trial + restricted walkers (2,1)} x a grid of "
                        "(n_prop_steps, n_ene_blocks, n_sr_blocks); executed eagerly with recording wrappers; dynamic op trace compared with "
                        "`flatten` of the generated program; coherence residual max|cached - recomputed|/|recomputed| measured at every propagate "
                        "entry; one complete driver.afqmc run (2 equilibration + 2 sampling iterations); jitted sampler vs explicit-refresh replay; "
